@@ -213,6 +213,8 @@ type searchHit struct {
 	mask Mask            // possible needle bytes
 	nlen Lin             // needle length (strings.Index); zero value = 1 byte
 	org  ssa.Instruction // the search call
+	// member: the call is strings.IndexByte(constant set, b): r ≥ 0 iff byte b is in the set
+	member *ByteV
 }
 
 func newState() *State {
@@ -409,6 +411,10 @@ func (s *State) renameSym(old, nw Sym) {
 	}
 	for r, h := range s.hits {
 		h.h = sub(h.h).(StrV)
+		if h.member != nil {
+			m := sub(*h.member).(ByteV)
+			h.member = &m
+		}
 		s.hits[r] = h
 	}
 }
